@@ -8,35 +8,42 @@ import Driver.OpsMatch
 import Driver.OpsApply
 import Driver.OpsCodec
 import Driver.OpsProject
+import Driver.OpsFS
+import Driver.OpsApi
+import Driver.OpsGridFS
 open Lean
 namespace Driver
 
 def allOps : List (String × Op) :=
-  opsCompare ++ opsMatch ++ opsApply ++ opsCodec ++ opsProject
+  opsCompare ++ opsMatch ++ opsApply ++ opsCodec ++ opsProject ++ opsFS ++ opsGridFS
 
-def handle (line : String) : Json :=
+def handle (st : DState) (line : String) : DState × Json :=
   match Json.parse line with
-  | .error e => Json.mkObj [("bad", s!"parse: {e}")]
+  | .error e => (st, Json.mkObj [("bad", s!"parse: {e}")])
   | .ok j =>
     match j.getObjVal? "op" with
     | .ok (.str name) =>
-      match allOps.lookup name with
-      | some op => match op j with
-        | .ok r => r
-        | .error e => Json.mkObj [("bad", e)]
-      | none => Json.mkObj [("bad", s!"unknown op {name}")]
-    | _ => Json.mkObj [("bad", "missing op")]
+      match statefulOps.lookup name with
+      | some op => op st j
+      | none =>
+        match allOps.lookup name with
+        | some op => match op j with
+          | .ok r => (st, r)
+          | .error e => (st, Json.mkObj [("bad", e)])
+        | none => (st, Json.mkObj [("bad", s!"unknown op {name}")])
+    | _ => (st, Json.mkObj [("bad", "missing op")])
 
-partial def loop (hin hout : IO.FS.Stream) : IO Unit := do
+partial def loop (hin hout : IO.FS.Stream) (st : DState) : IO Unit := do
   let line ← hin.getLine
   if line.isEmpty then return ()
   let l := line.trimAscii.toString
-  if l.isEmpty then loop hin hout else
-  hout.putStrLn (handle l).compress
+  if l.isEmpty then loop hin hout st else
+  let (st', r) := handle st l
+  hout.putStrLn r.compress
   hout.flush
-  loop hin hout
+  loop hin hout st'
 
 end Driver
 
 def main : IO Unit := do
-  Driver.loop (← IO.getStdin) (← IO.getStdout)
+  Driver.loop (← IO.getStdin) (← IO.getStdout) {}
